@@ -277,7 +277,7 @@ Proof.
           replace (q * (rmax / q)) with rmax in T2 by (field; lra). lra.
         - intros t Ht. apply F_lo. destruct Ht as [T1 T2]. apply (Rmult_lt_compat_l q) in T2; auto.
           replace (q * (Rmax rmin 0 / q)) with (Rmax rmin 0) in T2 by (field; lra). lra.
-        - intros t Ht. apply F_hi. apply (Rmult_lt_compat_l q) in Ht; auto.
+        - intros t [Ht _]. apply F_hi. apply (Rmult_lt_compat_l q) in Ht; auto.
           replace (q * (rmax / q)) with rmax in Ht by (field; lra). lra. }
       pose proof (los_scale F q (Rm / q) (x / q) _ Hq L') as LS.
       replace (q * (x / q)) with x in LS by (field; lra).
